@@ -304,6 +304,54 @@ LOOP_REVIEWED = {
 }
 
 
+ENC_LOOP_REVIEWED = {
+    "encodation::GenericDataEncoder::codewords": (1, "`while has_more_characters()`: every iteration either writes more than one codeword or counts towards the no-progress limit of 5 (then it panics: not-decided assertion, never an endless loop)"),
+    "encodation::ascii::encode": (1, "each iteration returns (mode switch / end of data) or eats one or two characters"),
+    "encodation::ascii::encoding_size": (1, "each iteration shortens `rest` by one or two bytes or breaks"),
+    "encodation::c40::encode_generic": (2, "`while let Some(ch) = ctx.eat()` and `while buf.len() >= 3` (drains three values per iteration)"),
+    "encodation::x12::encode": (1, "`while characters_left() >= 3`: eats three characters per iteration or breaks"),
+    "encodation::edifact::encode": (1, "`while let Some(ch) = ctx.eat()`"),
+    "encodation::base256::encode": (1, "each iteration eats a character while characters are left, and returns when none are left or the mode switches"),
+    "encodation::planner::shortest_path::remove_hopeless_cases": (1, "`while start + 1 < list.len()`: start increases or the loop breaks"),
+    "<encodation::planner::c40::C40LikePlan<T, U> as encodation::planner::Plan>::step": (1, "`while self.values >= 3 { .. self.values -= 3 }`: strictly decreasing"),
+    "encodation::planner::c40::unbeatable_strike": (0, ""),
+}
+
+
+def t_loops_encode(ctx):
+    """T-LOOPS (encode scope): every while/loop in the encoder has a reviewed progress argument; for loops are bounded,
+    except the planner's `for iteration in 0..` whose exit (every plan reports end after data.len() steps) is NOT decided."""
+    r = "T-LOOPS-ENC"
+    f = ctx.facts()
+    g, grp, uni, total = _residue_groups(ctx)
+    fns, _ = R.reachable(g, R.ENCODE_ENTRIES)
+    dec, _ = R.reachable(g, R.DECODE_ENTRIES)
+    obs = []
+    n = 0
+    for name, b in sorted(f.thir.items()):
+        cn = T.canon(name)
+        if cn not in fns or cn in dec:
+            continue
+        sts = T.stmts(b["body"], {"__noinline__": True})
+        loops = [s for s in T.stmt_walk(sts) if s[0] == "loop"]
+        fors = [s for s in T.stmt_walk(sts) if s[0] == "for"]
+        for s in fors:
+            n += 1
+            unb = [x for x in T.sx_walk(s[2]) if (x[0] == "adt" and x[1] == "core::ops::RangeFrom") or (x[0] == "call" and (x[1].endswith("Iterator::cycle") or x[1].endswith("iter::repeat")))]
+            bounded = not unb or any(x[0] == "call" and (x[1].endswith("Iterator::zip") or x[1].endswith("Iterator::take")) for x in T.sx_walk(s[2]))
+            if unb:
+                und = cn.endswith("shortest_path::optimize")
+                obs.append(Ob(r, "for:%s" % cn, bounded or und, "for loop in %s over %s%s" % (cn.split("::")[-1], T.sx_show(s[2], 80),
+                              " - the planner's character loop: leaves by `return` when every plan reports end or none survives (NOT decided)" if und else ""), site=s[4], undecided=und))
+        if loops:
+            n += len(loops)
+            allowed, reason = ENC_LOOP_REVIEWED.get(cn, (0, ""))
+            obs.append(Ob(r, "loop:" + cn, len(loops) <= allowed, "%s has %d while/loop statement(s); reviewed: %d%s" % (cn.split("::")[-1], len(loops), allowed, (" - " + reason) if reason else " (no termination argument on file)"),
+                          site=loops[0][-1] if isinstance(loops[0][-1], str) else None))
+    obs.append(Ob(r, "census", n >= 15, "%d loops of the encode scope (outside the decode scope) were classified" % n))
+    return obs
+
+
 def t_loops(ctx):
     r = "T-LOOPS"
     f = ctx.facts()
